@@ -166,3 +166,21 @@ Example c13_example :
   in_range 0 0 1 1424 3 27 [170; 187] /\
   create_packet 0 0 1 1424 3 27 [170; 187] = Ok [13; 144; 192; 27; 0; 1; 170; 187].
 Proof. split; [|vm_compute; reflexivity]. unfold in_range, fields_ok, zlen. cbn. repeat split; try lia. repeat constructor; lia. Qed.
+
+(* ---- injectivity (C13_injective) ---- *)
+(* construction is injective: a constructed packet determines its seven arguments *)
+Theorem packet_injective v t s a f c data v' t' s' a' f' c' data' :
+  in_range v t s a f c data -> in_range v' t' s' a' f' c' data' ->
+  packet v t s a f c data = packet v' t' s' a' f' c' data' ->
+  v = v' /\ t = t' /\ s = s' /\ a = a' /\ f = f' /\ c = c' /\ data = data'.
+Proof.
+  intros R R' E.
+  pose proof (accessors_inverse _ _ _ _ _ _ _ R) as H.
+  pose proof (accessors_inverse _ _ _ _ _ _ _ R') as H'.
+  rewrite E, H' in H. injection H as -> -> -> -> -> -> _.
+  repeat (split; [reflexivity|]).
+  unfold packet in E.
+  apply (f_equal (skipn 6)) in E.
+  rewrite !skipn_app, !to_be_length in E. cbn [Nat.sub] in E.
+  rewrite !skipn_all2 in E by (rewrite to_be_length; lia). cbn [app skipn] in E. exact E.
+Qed.
